@@ -7,7 +7,7 @@ from typing import Any, Callable, Dict, List, Optional, Sequence, Tuple
 
 from props import common
 from props.common import Ctx, Outcome
-from vlib.normalise import NORMALISERS
+from vlib.normalise import NORMALISERS, PREDICATES
 
 # check functions are registered by the property modules before the pool forks
 CHECKS: Dict[str, Callable[[str, Dict[str, Any]], Tuple[List[Any], Any]]] = {}
@@ -16,6 +16,8 @@ CHECKS: Dict[str, Callable[[str, Dict[str, Any]], Tuple[List[Any], Any]]] = {}
 def _attribute(check: Callable[..., Any], src: str, spec: Dict[str, Any], f: Any, known: Sequence[Dict[str, Any]]) -> Optional[str]:
     for k in known:
         m = k.get("match", {})
+        if "predicate" in m and PREDICATES[m["predicate"]](f.to_json(), src):
+            return k["id"]
         if "normaliser" not in m:
             continue
         if "obligation" in m and not re.search(m["obligation"], f.kind):
